@@ -393,10 +393,14 @@ func propC14(h *H) {
 				}
 			}
 			bad := ""
+			dupKey := ""
 			for a := 0; a < len(got) && bad == ""; a++ {
 				for b := a + 1; b < len(got); b++ {
 					if cls[got[a]][got[b]] {
 						bad = "output contains two Equal elements"
+						// how do the two elements that derived Equal calls equal differ?
+						d := Diff(pool[got[a]](), pool[got[b]]())
+						dupKey = fmt.Sprintf("keeps-two-Equal-elements|%s|%s", d.Kind, d.Type)
 						break
 					}
 				}
@@ -413,7 +417,11 @@ func propC14(h *H) {
 				bad = "first occurrences not kept in order"
 			}
 			if bad != "" {
-				h.Violation("unique-wrong", uniqueKey(comparable), bad+": output "+Show(res[0]), showIdx(lt, idx))
+				k := uniqueKey(comparable)
+				if dupKey != "" {
+					k = dupKey
+				}
+				h.Violation("unique-wrong", k, bad+": output "+Show(res[0]), showIdx(lt, idx))
 			}
 			if len(firsts) < len(idx) {
 				h.St.Nontriv++
